@@ -1,6 +1,6 @@
 (* C05 — Grammar analysis is exact: productions, minimum depths, recursion.
    Only statements closed by [exact]; Print Assumptions; non-vacuity example. *)
-From GE Require Import Base Grammar RegProofs WellTyped DistProofs.
+From GE Require Import Base Grammar RegProofs WellTyped DistProofs UsableProofs.
 Open Scope Z_scope.
 
 (* productions: for every class hierarchy, the rules of the analysed grammar have unique keys, each
@@ -45,6 +45,16 @@ Theorem C05_recursive_exact : forall d order g,
   forall s, In s (g_rec g) <-> (In s (r_nodes (g_reg g)) /\ reach_plus d (g_reg g) s s).
 Proof. exact recursive_exact. Qed.
 Print Assumptions C05_recursive_exact.
+
+(* usable_grammar(): the list of symbols it collects and hands to the re-extraction is EXACTLY the set of symbols reachable
+   from the start symbol by following the productions of abstract types and the (exploded) field types of productions -
+   for every grammar and every fuel with which the search ends.  (What the re-extraction then registers in addition -
+   the abstract parents of reachable productions - is known finding F35.) *)
+Theorem C05_usable_symbols_exact : forall d g fuel cs,
+  usable_bfs fuel d g [SC (d_start d)] [SC (d_start d)] = Ok cs ->
+  forall s, In s cs <-> ureach d g (SC (d_start d)) s.
+Proof. exact usable_symbols_exact. Qed.
+Print Assumptions C05_usable_symbols_exact.
 
 (* ---- non-vacuity: E -> Lit(int) | Neg(E) | Pair(tuple[E, int]) | Many(list[E] non-empty) ---- *)
 Definition ex5 : decl :=
